@@ -5,6 +5,7 @@ mod c01n;
 mod c02;
 mod c04;
 mod c07;
+mod c14n;
 mod c15;
 mod c29;
 mod c40;
@@ -26,6 +27,7 @@ fn main() {
         "C02" => c02::run(Report::new(&args, "model_checking")),
         "C04" => c04::run(Report::new(&args, "model_checking")),
         "C07" => c07::run(Report::new(&args, "model_checking")),
+        "C14N" => c14n::run(Report::new(&args, "model_checking")),
         "C15" => c15::run(Report::new(&args, "fault_enumeration")),
         "C16" => ephemeral::run_c16(Report::new(&args, "model_checking")),
         "C17" => ephemeral::run_c17(Report::new(&args, "model_checking")),
